@@ -1,11 +1,17 @@
 import Spine.Sender
+import Spine.SenderEvThm
 import Spine.Generated.Sender
 /-!
 # C13 — facts regenerated from spine/send.go on every run (tie b1)
 
-The hand-written model `Spine.Snd` / `Spine.Ctr` rests on five facts about the source text. The
-translator re-extracts them from `/repo`'s current tree; these theorems are re-checked by every
-`./check C13`. A code change that alters one of them breaks the obligation named here.
+The hand-written models `Spine.Snd` / `Spine.SndEv` / `Spine.Ctr` rest on facts about the source text: which
+statements are one critical section, in which order a send draws, stores and writes, which lock the response path
+takes. The translator (generator `sender`) re-establishes them from `/repo`'s current tree by ABSTRACT INTERPRETATION
+of the Sender's methods over go/ast (go/cmd/translate/absint.go: helpers of the package inlined, deferred calls run
+at frame end, both arms of undecidable branches explored; the request mutex, the request cache, the cache lock and
+the counter are identified by what they are, not by name). Extracted helpers, renames of unexported identifiers,
+moved files, `defer` vs explicit unlock, if/else vs early return leave the facts unchanged. These theorems are
+re-checked by every `./check C13`. A code change that alters one of them breaks the obligation named here.
 -/
 namespace Spine.Props.C13Gen
 open Spine
@@ -25,5 +31,53 @@ theorem c13_request_is_one_event : Generated.Sender.requestOneRegion = true := b
     interleavings -/
 theorem c13_counter_draw_is_atomic :
     Generated.Sender.counterAtomic = true ∧ Generated.Sender.oneDrawPerSend = true := by decide
+
+/-- ... and the draw precedes the write in every sending method: `take` before `emit` in `Spine.Ctr`, and what the
+    deterministic overlapping groups of the harness rely on (a send that is about to write has drawn already) -/
+theorem c13gen_draw_precedes_write : Generated.Sender.drawPrecedesWrite = true := by decide
+
+/-- The events of `Spine.SndEv` are atomic with respect to each other: every access to the request cache — the lookup
+    and the insertion of `Request`, the removal of the response path — happens under the cache lock, stores and deletes
+    under its write lock. (Whether a response can fall BETWEEN the write and the insertion is the next fact; the
+    event-sourced model allows it in any case, so its theorems over-approximate the schedules of a tree where it
+    cannot.) -/
+theorem c13gen_cache_events_atomic : Generated.Sender.cacheAccessUnderCacheLock = true := by decide
+
+/-- The window: when the response path does not take the request mutex, `Request` writes to the connection while the
+    cache lock is free and remembers the request after the write, a response can be processed between write and
+    insertion — then the refutation of the member as written is a schedule of the tree under test. (In a tree without
+    the window — the response path serialised behind the request mutex, say — the hypothesis is false, requests and
+    responses do not overlap and the sequential theorems `c13_model_satisfies_spec` apply.) -/
+theorem c13gen_window_realises_witness
+    (_h : (Generated.Sender.responsePathSkipsRequestMutex && Generated.Sender.writeOutsideCacheLock &&
+      Generated.Sender.requestRemembersAfterWrite) = true) :
+    Snd.Spec.run [] (SndEv.observations false {}
+      [.reqBegin 1 7, .plain (.response 1), .reqEnd 1, .reqBegin 2 7]) = none := by decide
+
+/-- The family member: the tree under test remembers a request either after the write (as written: the member
+    `insertFirst = false`, for which `c13_answer_overtakes_insert_refuted` and `c13_dedup_sound_partial` hold) or
+    before it (repaired: `insertFirst = true`, `c13_dedup_sound_all_interleavings`) — exactly one of the two. The
+    harness probes the same flag dynamically (`insertAfterWrite`); the driver reports the static member (`member`:
+    before / after with the window / after without a window) and the harness records a mismatch if the probe disagrees. -/
+theorem c13gen_request_member :
+    (Generated.Sender.requestRemembersBeforeWrite = true ∧ Generated.Sender.requestRemembersAfterWrite = false) ∨
+    (Generated.Sender.requestRemembersBeforeWrite = false ∧ Generated.Sender.requestRemembersAfterWrite = true) := by
+  decide
+
+/-- for the member the source says it is, the de-duplication clauses hold under every interleaving that is calm for
+    that member (for the repaired member: every interleaving) -/
+theorem c13gen_member_sound (evs : List SndEv.Ev)
+    (hcalm : Generated.Sender.requestRemembersBeforeWrite = false →
+      SndEv.calm Generated.Sender.requestRemembersBeforeWrite {} evs = true) :
+    (Snd.Spec.run [] (SndEv.observations Generated.Sender.requestRemembersBeforeWrite {} evs)).isSome :=
+  SndEv.run_coupled _ evs {} [] (SndEv.init_coupled _) hcalm
+
+/-- non-vacuity: the interleaving with a response to another counter inside the window is calm in both members -/
+example : ∀ f : Bool, SndEv.calm f {} [.reqBegin 1 7, .reqEnd 1, .reqBegin 2 8, .plain (.response 1), .reqEnd 2] = true := by
+  decide
+
+/-- "Notify stores the datagram before sending": why `Snd.notify` puts the counter into the LRU in the same event
+    that draws it, and why `c13_notify_retrievable_at_once` speaks about the code -/
+theorem c13gen_notify_stores_before_write : Generated.Sender.notifyStoresBeforeWrite = true := by decide
 
 end Spine.Props.C13Gen
